@@ -84,15 +84,17 @@ def units(tier, seed):
 # ---------------------------------------------------------------------------
 # exact model
 
-def positions_1d(n, ll, csz):
-    """float query positions along one axis: list of (float x, tag)"""
+def positions_1d(n, ll, csz, idx=None, inset=EPS):
+    """float query positions along one axis: list of (float x, tag).
+    idx = optional increasing subset of the n column (row) indices (size ladder: sparse queries);
+    inset = distance of the two off-centre points of a cell from its edges (in cells)"""
     out = []
     for d in reversed(DISTS):
         out.append((ll - csz * d, "out-lo"))
-    for j in range(n):
-        out.append((ll + csz * (j + EPS), "edge-inset"))
+    for j in (range(n) if idx is None else idx):
+        out.append((ll + csz * (j + inset), "edge-inset"))
         out.append((ll + csz * (j + 0.5), "centre"))
-        out.append((ll + csz * (j + 1 - EPS), "edge-inset"))
+        out.append((ll + csz * (j + 1 - inset), "edge-inset"))
     ur = ll + csz * n
     for d in DISTS:
         out.append((ur + csz * d, "out-hi"))
@@ -123,8 +125,18 @@ def side_name(sx, sy):
     return SIDE_X.get(sx, "") + ("-" if sx and sy else "") + SIDE_Y.get(sy, "")
 
 
-def make_grid(nrows, ncols, csz, xll, yll):
+def make_grid(nrows, ncols, csz, xll, yll, mode=None):
     from hydrodiy.gis.grid import Grid
+    if mode == "virtual":
+        # geometry-only grid: a 1x1 Grid whose public nrows / ncols attributes are re-assigned (the constructor
+        # would allocate nrows*ncols cells; none of the functions judged here reads the data array)
+        g = Grid("g", ncols=1, nrows=1, cellsize=csz, xllcorner=xll, yllcorner=yll)
+        g.nrows = np.int64(nrows)
+        g.ncols = np.int64(ncols)
+        return g
+    if mode == "big":
+        # one byte per cell, zero-filled by the constructor (calloc: pages are never touched)
+        return Grid("g", ncols=ncols, nrows=nrows, cellsize=csz, xllcorner=xll, yllcorner=yll, dtype=np.int8)
     return Grid("g", ncols=ncols, nrows=nrows, cellsize=csz, xllcorner=xll, yllcorner=yll)
 
 
@@ -138,16 +150,31 @@ def touch_grid(g):
         pass
 
 
-def geom_case(nrows, ncols, csz, xll, yll):
-    return {"nrows": nrows, "ncols": ncols, "csz": csz, "xll": xll, "yll": yll}
+def geom_case(nrows, ncols, csz, xll, yll, mode=None):
+    gc = {"nrows": nrows, "ncols": ncols, "csz": csz, "xll": xll, "yll": yll}
+    if mode:
+        gc["mode"] = mode       # size ladder: "ladder" (sparse queries), "big" / "virtual" (huge grids)
+    return gc
+
+
+SFX = {None: "", "ladder": ":size-ladder", "big": ":big-grid", "virtual": ":big-grid-virtual"}
 
 
 def check_coord2cell(ctx, g, gc, only=None):
     """only = optional (x, y) float pair restricting the check to one query point (replay)"""
     nrows, ncols, csz, xll, yll = gc["nrows"], gc["ncols"], gc["csz"], gc["xll"], gc["yll"]
+    mode = gc.get("mode")
+    sfx = SFX[mode]
     if only is None:
-        xs = positions_1d(ncols, xll, csz)
-        ys = positions_1d(nrows, yll, csz)
+        if mode is None:
+            xs = positions_1d(ncols, xll, csz)
+            ys = positions_1d(nrows, yll, csz)
+        else:
+            # size ladder: sparse columns / rows; huge grids: quarter-cell insets (2^-29 cell is below the
+            # resolution of (x - xll)/csz when the index exceeds 2^24)
+            inset = EPS if mode == "ladder" else 0.25
+            xs = positions_1d(ncols, xll, csz, coarse_indices(ncols), inset)
+            ys = positions_1d(nrows, yll, csz, coarse_indices(nrows), inset)
         # positions must be strictly increasing (distinctness of cases)
         fx = [p[0] for p in xs]
         fy = [p[0] for p in ys]
@@ -164,12 +191,12 @@ def check_coord2cell(ctx, g, gc, only=None):
         res = g.coord2cell(pts)
     except Exception as e:
         ctx.case(True, n=len(pts))
-        ctx.violation("coord2cell:raised:%s" % type(e).__name__, dict(gc, kind="coord2cell-call"),
+        ctx.violation("coord2cell:raised:%s" % type(e).__name__ + sfx, dict(gc, kind="coord2cell-call"),
                       "coord2cell raised %r on finite coordinates" % (e,))
         return
     if res.shape != (len(pts),):
         ctx.case(True, n=len(pts))
-        ctx.violation("coord2cell:shape", dict(gc, kind="coord2cell-call"),
+        ctx.violation("coord2cell:shape" + sfx, dict(gc, kind="coord2cell-call"),
                       "result shape %r for %d points" % (res.shape, len(pts)))
         return
     njudged = ndropped = 0
@@ -202,7 +229,7 @@ def check_coord2cell(ctx, g, gc, only=None):
                     key = "coord2cell:outside-%s-mapped-inside" % side
                 else:
                     key = "coord2cell:outside-%s-bad-flag" % side
-                ctx.violation(key, case,
+                ctx.violation(key + sfx, case,
                               "point (%r, %r) lies %s of the extent x[%r, %r] y[%r, %r] of a %dx%d grid (cellsize %r) "
                               "but coord2cell returned %d instead of -1" % (
                                   x, y, side, xll, xll + ncols * csz, yll, yll + nrows * csz, nrows, ncols, csz, obs),
@@ -210,7 +237,7 @@ def check_coord2cell(ctx, g, gc, only=None):
             else:
                 cls = "centre" if xs[ix][1] == "centre" and ys[iy][1] == "centre" else "edge-inset"
                 key = ("coord2cell:inside-mapped-outside:%s" if obs < 0 else "coord2cell:inside-wrong-cell:%s") % cls
-                ctx.violation(key, case,
+                ctx.violation(key + sfx, case,
                               "point (%r, %r) lies inside cell %d (row %d, col %d) of a %dx%d grid (cellsize %r, "
                               "xll %r, yll %r) but coord2cell returned %d" % (
                                   x, y, expected, nrows - 1 - jy, jx, nrows, ncols, csz, xll, yll, obs),
@@ -224,10 +251,10 @@ def check_coord2cell(ctx, g, gc, only=None):
         try:
             r1 = g.coord2cell(pts[0])
             if r1.shape != (1,) or int(r1[0]) != int(res[0]):
-                ctx.violation("coord2cell:single-point-form", dict(gc, kind="coord2cell-call"),
+                ctx.violation("coord2cell:single-point-form" + sfx, dict(gc, kind="coord2cell-call"),
                               "coord2cell(pair) = %r differs from the vector call %r" % (r1.tolist(), int(res[0])))
         except Exception as e:
-            ctx.violation("coord2cell:single-point-form", dict(gc, kind="coord2cell-call"),
+            ctx.violation("coord2cell:single-point-form" + sfx, dict(gc, kind="coord2cell-call"),
                           "coord2cell(pair) raised %r" % (e,))
 
 
